@@ -166,10 +166,19 @@ func verifyPageReachable(p *common.Page, hwm common.Pgid, stack []common.Pgid, r
 		reachable[id] = p
 	}
 
-	// We should only encounter un-freed leaf and branch pages.
-	if freed[p.Id()] {
-		ch <- fmt.Errorf("page %d: reachable freed", int(p.Id()))
-	} else if !p.IsBranchPage() && !p.IsLeafPage() {
+	// We should only encounter un-freed leaf and branch pages. A page with
+	// overflow occupies several page ids, none of which may be free.
+	isFreed := false
+	for i := common.Pgid(0); i <= common.Pgid(p.Overflow()); i++ {
+		if id := p.Id() + i; freed[id] {
+			ch <- fmt.Errorf("page %d: reachable freed", int(id))
+			isFreed = true
+		}
+	}
+	if isFreed {
+		return
+	}
+	if !p.IsBranchPage() && !p.IsLeafPage() {
 		ch <- fmt.Errorf("page %d: invalid type: %s (stack: %v)", int(p.Id()), p.Typ(), stack)
 	}
 }
